@@ -576,7 +576,6 @@ structure MSlot where
 /-- A fan-out of `notifySessions(kind)` whose loop is held before every write. -/
 structure MFan where
   kind : Kind
-  dirty : Bool := false                      -- a change of the kind was made since its snapshot
   expect : List (Nat × List String) := []    -- slots entitled when the snapshot was taken, and the stamps that were right then
   served : List Nat := []
 
@@ -751,8 +750,7 @@ def monitorStep (m : Mon) (toks : List String) (impl : String) : Mon × Option S
       if m.cap k == .off then (m, none) else
       -- a held fan-out of the kind: what it writes from now on was decided before this change
       let servedMid : List Nat := (m.fans.filter (·.kind == k)).flatMap (·.served)
-      let m := { m with fans := m.fans.map (fun (f : MFan) => if f.kind == k then { f with dirty := true } else f),
-                        slots := (List.range 3).map (fun i =>
+      let m := { m with slots := (List.range 3).map (fun i =>
                           let d := m.slot i
                           if servedMid.contains i && !d.midFan.contains k then { d with midFan := d.midFan ++ [k] } else d) }
       (m.mapSlots (fun d => if d.connected && !d.owed.contains k then { d with owed := d.owed ++ [k] } else d), none)
@@ -787,7 +785,7 @@ def monitorStep (m : Mon) (toks : List String) (impl : String) : Mon × Option S
         let m := { m with slots := (List.range 3).map (fun i =>
           let d := m.slot i
           if got i then ({ d with owed := d.owed.filter (· != k), skipped := d.skipped.filter (· != k),
-                                  skippedAck := d.skippedAck.filter (· != k) }).handled m (keysOfKind k)
+                                  skippedAck := d.skippedAck.filter (· != k), midFan := d.midFan.filter (· != k) }).handled m (keysOfKind k)
           else if d.owed.contains k && entitledNow d k then
             { d with skipped := if d.skipped.contains k then d.skipped else d.skipped ++ [k],
                      skippedAck := if d.modern && d.windowK k && !d.skippedAck.contains k
@@ -853,14 +851,14 @@ def monitorStep (m : Mon) (toks : List String) (impl : String) : Mon × Option S
                 some "C18: at_least_one_after_burst (blocked fan-out): the write of the fan-out to a connected, entitled session delivered nothing" else none
             | none => none
           let got (i : Nat) : Bool := ds.any (·.slot == i)
-          -- a write decided before a later change of the kind discharges nothing (`change_during_fanout_announced`)
+          -- the session handles this notification NOW, after every change made so far — also those made since
+          -- the snapshot: its debt is discharged (the sessions written to BEFORE such a change are the ones
+          -- that depend on the change arming a timer of its own: `change_during_fanout_announced`)
           let m := { m with slots := (List.range 3).map (fun i =>
             let d := m.slot i
             if got i then
-              let d := d.handled m (keysOfKind k)
-              if fan.dirty then d else
-                { d with owed := d.owed.filter (· != k), skipped := d.skipped.filter (· != k),
-                         skippedAck := d.skippedAck.filter (· != k) }
+              ({ d with owed := d.owed.filter (· != k), skipped := d.skipped.filter (· != k),
+                        skippedAck := d.skippedAck.filter (· != k), midFan := d.midFan.filter (· != k) }).handled m (keysOfKind k)
             else d) }
           let fan := { fan with served := fan.served ++ ds.map (·.slot) }
           let m :=
